@@ -1,6 +1,7 @@
 import CotengraVerif.Driver.Util
 import CotengraVerif.Model.Hyper
 import CotengraVerif.Model.HyperTrial
+import CotengraVerif.Model.HyperX
 
 namespace Cotengra.Driver.C08
 open Lean Cotengra Cotengra.Driver Cotengra.Hyper
@@ -150,6 +151,177 @@ def worker : Handler := fun j => do
                 ("size", jOS r.size), ("tree", jOptNat r.tree),
                 ("keyerror", jBool (toTrial id r).isNone)])
 
-def handlers : List (String × Handler) := [("c08.search", search), ("c08.worker", worker)]
+/-! ### extended model (`Model/HyperX.lean`) -/
+
+/-- float scores: number = finite, `null` = +inf, `"nan"`, `"-inf"` -/
+def xscoreOf (j : Json) : Except String XScore :=
+  match j with
+  | .null => pure .inf
+  | .str "nan" => pure .nan
+  | .str "-inf" => pure .ninf
+  | .str s => throw s!"unknown score {s}"
+  | _ => do pure (.fin (← natOf j))
+
+def jXScore : XScore → Json
+  | .ninf => jStr "-inf"
+  | .fin n => jNat n
+  | .inf => Json.null
+  | .nan => jStr "nan"
+
+/-- a scripted worker result: `"raise"` = the call raises -/
+def xtrialOf (j : Json) : Except String (Option XTrial) :=
+  match j with
+  | .str _ => pure none
+  | _ => do
+    pure (some { score := ← xscoreOf (fieldD j "score" Json.null),
+                 flops := ← scoreOf (fieldD j "flops" Json.null),
+                 write := ← scoreOf (fieldD j "write" Json.null),
+                 size := ← scoreOf (fieldD j "size" Json.null),
+                 tree := ← optNatOf (fieldD j "tree" Json.null),
+                 time := ← natOf (fieldD j "time" (jNat 0)) })
+
+def jXTrial (t : XTrial) : Json :=
+  jObj [("score", jXScore t.score), ("flops", jScore t.flops), ("write", jScore t.write),
+        ("size", jScore t.size), ("tree", jOptNat t.tree), ("time", jNat t.time)]
+
+def jXState (st : XState) : Json :=
+  jObj [("methods", jNats st.methodChoices), ("params", jNats st.paramChoices),
+        ("scores", jArr (st.scores.map jXScore)), ("times", jNats st.times),
+        ("flops", jArr (st.costsFlops.map jScore)),
+        ("write", jArr (st.costsWrite.map jScore)), ("size", jArr (st.costsSize.map jScore)),
+        ("best_score", jXScore st.bestScore),
+        ("best", match st.best with
+          | none => Json.null
+          | some b => jObj [("trial", jXTrial b.trial), ("params", jOptNat b.params),
+                            ("method", jOptNat b.method)]),
+        ("trials_since_best", jNat st.trialsSinceBest),
+        ("reports", jArr (st.optlibReports.map fun (p, s) => jArr [jNat p, jXScore s])),
+        ("submitted", jNat st.submitted),
+        ("tree", jOptNat st.tree),
+        ("get_trials", jArr (st.getTrials.map fun (m, sz, f, w, p) =>
+          jArr [jNat m, jScore sz, jScore f, jScore w, jNat p]))]
+
+def xenvOf (settings : List Setting) (trials : List (Option XTrial)) (done : List Nat) : XEnv :=
+  { getSetting := fun st => settings.getD st.submitted default,
+    trialFn := fun k _ => trials.getD k none,
+    doneAt := fun k => done.contains k }
+
+/-- op `c08.xsearch`: a sequence of searches on one optimizer object, extended model.
+    `trials[k]` = result of the k-th submission overall (`"raise"` = the worker raises);
+    `done` = submissions whose worker has finished by the time a clean-up pops their future.
+    Per search: the state, `cancelled` (pop order), `discarded`, `raised`, `futures_left`. -/
+def xsearch : Handler := fun j => do
+  let mts ← optNatOf (fieldD j "mts" Json.null)
+  let settings ← (← arrOf (← field j "settings")).mapM fun p => do
+    match ← arrOf p with
+    | [a, b] => pure ({ method := ← natOf a, params := ← natOf b } : Setting)
+    | _ => throw "setting must be [method, params]"
+  let trials ← (← arrOf (← field j "trials")).mapM xtrialOf
+  let done ← natList (fieldD j "done" (jArr []))
+  let env := xenvOf settings trials done
+  let searches ← arrOf (← field j "searches")
+  let mut st := XState.init mts
+  let mut outs : List Json := []
+  for sj in searches do
+    let mode ← (← field sj "mode").getStr?
+    let maxRepeats ← natOf (← field sj "max_repeats")
+    let stop ← stopOf (← field sj "stop")
+    if mode == "serial" then
+      let r := xsearchSerial env maxRepeats stop st
+      st := r.st
+      outs := outs ++ [jObj [("state", jXState st), ("cancelled", jNats []), ("discarded", jNats []),
+                             ("raised", jBool r.aborted), ("futures_left", jNats [])]]
+    else
+      let pre ← natOf (← field sj "pre")
+      let choices ← natList (← field sj "choices")
+      let ps := xsearchParallel env pre maxRepeats stop choices st
+      -- "cleanup": "assess" / "report" = the two alternative clean-ups (a changed tree that
+      -- collects finished futures during `_maybe_cancel_futures`); default: the code as written
+      let cleanup := (fieldD sj "cleanup" (jStr "drop")).getStr?.toOption.getD "drop"
+      st := if cleanup == "assess" then harvestAndAssess env ps
+            else if cleanup == "report" then harvestReportOnly env ps
+            else ps.h
+      outs := outs ++ [jObj [("state", jXState st), ("cancelled", jNats ps.cancelled),
+                             ("discarded", jNats (ps.discarded.map (·.2))),
+                             ("raised", jBool ps.aborted),
+                             ("raised_id", jOptNat ps.raised),
+                             ("futures_left", jNats (ps.futures.map (·.2)))]]
+  pure (jObj [("searches", jArr outs)])
+
+/-- op `c08.xworker`: as `c08.worker`, with a float-valued objective
+    (`value`: number | null (= +inf) | "nan" | "-inf" | "raise"). -/
+def xworker : Handler := fun j => do
+  let statsTbl ← (← arrOf (← field j "stats")).mapM fun r => do
+    match ← arrOf r with
+    | [i, f, w, s] => pure (← natOf i, ({ flops := ← natOf f, write := ← natOf w, size := ← natOf s } : CStats))
+    | _ => throw "stats row"
+  let mutTbl ← (← arrOf (← field j "mutate")).mapM fun r => do
+    match ← arrOf r with
+    | [w, i, o] => pure ((← wrapperOf w, ← natOf i), ← optNatOf o)
+    | _ => throw "mutate row"
+  let ops : TreeOps Nat :=
+    { stats := fun t => (statsTbl.lookup t).getD default,
+      mutate := fun w t => (mutTbl.lookup (w, t)).getD none }
+  let o ← field j "opts"
+  let flag := fun (k : String) => (fieldD o k (Json.bool false)).getBool?
+  let ws := setupStack (← flag "anneal") (← flag "slice") (← flag "slice_reconf") (← flag "reconf")
+  let ensures ← (← field j "ensures").getBool?
+  let value : Option XScore ←
+    match ← field j "value" with
+    | .str "raise" => pure none
+    | v => do pure (some (← xscoreOf v))
+  let postEnsure ← (fieldD j "post_ensure" (Json.bool false)).getBool?
+  let obj : XObjective Nat := { ensures := ensures, value := fun _ => value }
+  let onErr ← match ← (← field j "on_error").getStr? with
+    | "raise" => pure OnErr.raise
+    | "warn" => pure OnErr.warn
+    | "ignore" => pure OnErr.ignore
+    | s => throw s!"unknown on_error {s}"
+  let raw : Raw Nat ← match ← field j "raw" with
+    | .str "bad" => pure Raw.badTrial
+    | .str _ => pure Raw.error
+    | v => do pure (Raw.ok (← natOf v))
+  let jOS : Option Score → Json := fun
+    | none => jStr "missing"
+    | some s => jScore s
+  match xcomputeScore ops ws obj postEnsure onErr raw with
+  | none => pure (jObj [("raised", jBool true), ("stack", jArr (ws.map (jStr ∘ wrapperName)))])
+  | some r =>
+    pure (jObj [("raised", jBool false), ("stack", jArr (ws.map (jStr ∘ wrapperName))),
+                ("score", jXScore r.score), ("flops", jOS r.flops), ("write", jOS r.write),
+                ("size", jOS r.size), ("tree", jOptNat r.tree),
+                ("keyerror", jBool (xtoTrial id 0 r).isNone)])
+
+/-- op `c08.xprefixes`: the states `xrunLog init (log.take n)` for every prefix of a completion log
+    (`order` = submission numbers in completion order): what `self.best` must be whenever the real
+    object is looked at between two assessed trials.  Returns, per prefix, `best["score"]`, the
+    winner's params id and `trials_since_best`. -/
+def xprefixes : Handler := fun j => do
+  let mts ← optNatOf (fieldD j "mts" Json.null)
+  let settings ← (← arrOf (← field j "settings")).mapM fun p => do
+    match ← arrOf p with
+    | [a, b] => pure ({ method := ← natOf a, params := ← natOf b } : Setting)
+    | _ => throw "setting must be [method, params]"
+  let trials ← (← arrOf (← field j "trials")).mapM xtrialOf
+  let order ← natList (← field j "order")
+  let row := fun (st : XState) =>
+    jObj [("n", jNat st.scores.length), ("best", jXScore st.curBest),
+          ("params", match st.best with | none => Json.null | some b => jOptNat b.params),
+          ("trials_since_best", jNat st.trialsSinceBest)]
+  let mut st := XState.init mts
+  let mut log : XLog := []
+  let mut outs : List Json := [row st]
+  for k in order do
+    match trials.getD k none with
+    | none => throw s!"submission {k} has no result"
+    | some t =>
+      log := log ++ [(settings.getD k default, t)]
+      st := xrunLog (XState.init mts) log
+      outs := outs ++ [row st]
+  pure (jObj [("prefixes", jArr outs)])
+
+def handlers : List (String × Handler) :=
+  [("c08.search", search), ("c08.worker", worker), ("c08.xsearch", xsearch),
+   ("c08.xworker", xworker), ("c08.xprefixes", xprefixes)]
 
 end Cotengra.Driver.C08
